@@ -261,7 +261,25 @@ pub fn build_response(spec: &RespSpec) -> ResponseBox {
             .boxed()
         }
     };
+    let apply_data = |r: ResponseBox| -> ResponseBox {
+        match &spec.replace_data {
+            Some((data, len)) => {
+                let rd: Box<dyn Read + Send> = Box::new(PieceReader::new(data.0.clone(), spec.pieces.clone()));
+                r.with_data(rd, *len)
+            }
+            None => r,
+        }
+    };
+    let mut applied = false;
+    let mut later = 0usize;
     for (n, v, via) in &spec.headers {
+        if !(*via == 0 && spec.ctor == Ctor::New) {
+            if !applied && spec.replace_at == Some(later) {
+                r = apply_data(r);
+                applied = true;
+            }
+            later += 1;
+        }
         match via {
             0 => {
                 if spec.ctor != Ctor::New {
@@ -285,10 +303,8 @@ pub fn build_response(spec: &RespSpec) -> ResponseBox {
     if let Some(t) = spec.threshold {
         r = r.with_chunked_threshold(t);
     }
-    if let Some((data, len)) = &spec.replace_data {
-        let rd: Box<dyn Read + Send> =
-            Box::new(PieceReader::new(data.0.clone(), spec.pieces.clone()));
-        r = r.with_data(rd, *len);
+    if !applied {
+        r = apply_data(r);
     }
     r
 }
